@@ -68,7 +68,8 @@ class Pipe(object):
             sent = []
             pilot._pmgr._pilot_staging_input = lambda pid, sds: sent.append((pid, sds))
             self.pre_targets = [str(t) for t in pilot.stage_in(
-                [{'source': 'client:///%s' % name, 'target': '%s:///%s' % (loc, name),
+                [{'source': 'client:///%s' % name,
+                  'target': name if loc == 'rel' else '%s:///%s' % (loc, name),
                   'action': 'Transfer'} for loc, name in pre_stage])]
         self.pilot = pilot.as_dict()     # what add_pilots hands to the scheduler
 
